@@ -14,7 +14,7 @@ import vlib
 OWN = {
     "C01": {"panic-or-hang", "decode-too-slow", "name-limits-exceeded"},
     "C02": {"well-formed-record-refused", "record-boundary-missed", "record-dropped", "reencoding-not-a-fixpoint",
-            "rdata-not-preserved"},
+            "rdata-not-preserved", "type-set-differs"},
 }
 
 
@@ -70,13 +70,14 @@ def run(res, prop, tier, wd_name):
         if e["kind"] != "context" or e["ctx"]["rdlen"] != "exact":
             res.nontrivial.add("g:" + e["case"])
     # (a run cut short by hanging decoders is judged on what it saw)
+    types = {t for t in types if not t.startswith("TYPE")}
     if not info.get("hangs") and (must < 1000 or accepted == 0 or refused == 0 or len(types) < 35):
         raise vlib.ToolError(f"vacuous grammar run: must={must} accepted={accepted} refused={refused} types={len(types)}")
     res.traces += len(lines)
     res.evaluations += len(lines)
     res.extra["grammar"] = {"cases": len(cases), "well_formed_in_context": must, "record_types": len(types),
                             "accepted_by_Message_from_vec": accepted, "refused": refused,
-                            "kinds": {k: sum(1 for c in cases if c["kind"] == k) for k in ("single", "context", "pair", "tlv", "trunc")},
+                            "kinds": {k: sum(1 for c in cases if c["kind"] == k) for k in ("single", "context", "pair", "tlv", "trunc", "code")},
                             "events": len(lines)}
     own = OWN[prop]
     other = 0
